@@ -526,7 +526,7 @@ def rand_request(rng, ua):
     req['scheme'] = rng.choice(['http', 'http', 'https'])
     req['server'] = list(rng.choice(SERVERS))
     if rng.random() < 0.5:
-        req['server'][1] = default = 443 if req['scheme'] == 'https' else 80
+        req['server'][1] = 443 if req['scheme'] == 'https' else 80
     req['client'] = rng.choice(CLIENTS)
     req['root_path'] = rng.choice(ROOTS)
     req['http_version'] = rng.choice(['1.1', '1.1', '1.1', '1.0', '2'])
